@@ -73,7 +73,12 @@ def cases(tier, seed, prop):
         if rnd.random() < (.5 if prop == 'C07' else .1): ab = gens.mutate(rnd, ab, gens.ABBR_ALPHA)
         out.append({'s': ab, 'c': CFGS[rnd.randrange(len(CFGS))] if rnd.random() < .4 else rand_cfg(rnd), 'g': 'abbr'})
     if prop == 'C07':
-        for ab in ('div[class="a ${1}"]', '.x[class="${1} b"]', 'p[id="i${1}"]', 'p.a${1}.b', 'ul>li[class="${1:k}"]*2', '#m${2:x}[class=${1}]', 'p[class="${1}"]{t}'):
+        # wrap text that looks like a link, elements that take an href (markup.href on: judged by the oracle on the implementation only)
+        for ab in ('a', 'a["x"]', "a['y' href]", 'a[title="t"]', 'p>a', 'a.b', 'ul>li*>a', 'a[href]', 'a["x" "y"]', 'a[href=""]', 'div>a["z"]{t}'):
+            for tx in ('http://emmet.io', 'info@emmet.io', 'www.emmet.io', ['http://a.b', 'c@d.e'], 'plain text'):
+                for sy in ('html', 'jsx', 'pug'):
+                    out.append({'s': ab, 'c': {'syntax': sy, 'text': tx}, 'g': 'href', 'href': 1})
+        for ab in ('div..{${1}}', 'p..${1}', '..${2:x}', 'div..a${1}', 'div[class="a ${1}"]', '.x[class="${1} b"]', 'p[id="i${1}"]', 'p.a${1}.b', 'ul>li[class="${1:k}"]*2', '#m${2:x}[class=${1}]', 'p[class="${1}"]{t}'):
             for sy in ('haml', 'pug', 'slim', 'html', 'jsx', 'vue', 'xsl'):
                 out.append({'s': ab, 'c': {'syntax': sy}, 'g': 'field-in-class'})
         # half-typed input: every prefix of valid abbreviations (open attribute sets, expressions, quotes, text, groups …)
@@ -174,6 +179,9 @@ def run(case, prop):
         viol = oracle_C07(ab, o)
         o2 = outcome_cached(ab, mk(case['c']))
         if o2 != o: viol += ['(with a cache shared by earlier calls) ' + v for v in oracle_C07(ab, o2)]
+        if case.get('href'):
+            c3 = mk(case['c']); c3['options']['markup.href'] = True
+            viol += ['(markup.href on) ' + v for v in oracle_C07(ab, outcome(ab, c3))]
     tags = {'gen:' + case['g']: 1, 'outcome:' + o[0]: 1, 'syntax:' + case['c'].get('syntax', '-'): 1}
     return line_of(o), viol, tags
 
